@@ -14,6 +14,24 @@ Contract checked at run time on the REAL application object (statement of C09, n
   R  (retention) N requests of one kind (or cycling through all kinds), every environ carrying a
                  weakref-able marker and a weakref-able wsgi.input; after gc.collect() at most
                  KEEP (=4) markers / input streams are alive, both after N and after 2N requests.
+  R2 (retention of request data)  the same runs, every request with a path / identity of its own
+                 (paths='distinct': N distinct paths, routed through a wildcard route or unrouted) or
+                 all N requests identical (paths='same').  After gc.collect() the objects the
+                 collector can reach (every tracked container and the untracked dicts / tuples /
+                 lists hanging off them) are searched for the identities of the requests served; c(N) =
+                 number of distinct identities still reachable after N requests.  "A constant number,
+                 independent of N" is read as: c must stop growing.  Bounded caches of the standard
+                 library (urllib.parse.urlsplit keeps 128 strings) are a constant and accepted;
+                 reported is c(2N) > c(N)+KEEP and, after 2N further requests, c(4N) > c(2N)+KEEP
+                 (a route-lookup memo keyed by the request path keeps one entry -- key, end-point
+                 list, wildcard dict, 404 data -- per distinct path for good: c(N) = N).  The identity
+                 token is derived from the case, so nothing an earlier case of the same worker
+                 process left behind is counted.
+  H1 on repeated requests (same=1): every request of the history carries the SAME identity, so the
+                 last request is byte-for-byte a repetition of an earlier one; two kinds have a
+                 handler that normalises ITS OWN request's wildcard arguments in place
+                 (request.url_args['id'] = int(...), request.url_args[...] = tuple, extra key): the
+                 repetition must be answered like the first time (= like a fresh application).
 
 The reference is always computed by the real code (fresh application), never by a model, so
 whatever the framework answers for a kind (e.g. a 500 for a malformed multipart body) is accepted
@@ -32,15 +50,22 @@ KEEP = 4            # constant bound on per-request objects alive after any numb
 JOIN_TIMEOUT = 15   # seconds; a thread that does not finish is reported, never waited for
 
 KINDS = ['cookie', 'header', 'status', 'notfound', 'notallowed', 'badpath', 'badchunk', 'oversized',
-         'badmultipart', 'crash', 'redirect', 'respcookie', 'static', 'echo', 'echo_empty', 'jsonerr', 'badvalue', 'badchunk_json']
+         'badmultipart', 'crash', 'redirect', 'respcookie', 'static', 'echo', 'echo_empty', 'jsonerr', 'badvalue', 'badchunk_json',
+         'argsint', 'argsmut']
 
 BOUND = ('histories r1..rk over %d request kinds (%s): every sequence of length k<=3 (quick) / k<=4 (thorough) with '
          'debug off on the building thread; additionally every sequence of length <=2 (quick) / <=3 (thorough) for '
          '{debug on, debug off} x {history served on the building thread, on a new worker thread}; exhaustive. '
+         'argsint / argsmut = wildcard routes whose handler rewrites request.url_args of its own request in place. '
+         'Repeated requests (same=1, every request of the history carries the same identity, so r_k repeats an '
+         'earlier request exactly): every history of length 2, and (K,K,K), (K,X,K) for all kinds K, X, debug off, '
+         'building thread and worker thread for length 2. '
          'Retention: N in {200} (quick) / {200, 2000} (thorough) requests of each kind and of the round-robin mix, '
-         'counted after N and after 2N.' % (len(KINDS), ', '.join(KINDS)))
-NONTRIVIAL_RULE = ('distinct (mode, kinds, debug, where, N); non-trivial = history of length >= 2 (something was '
-                   'served before r_k) or a retention run')
+         'counted after N and after 2N, with N distinct paths/identities (markers, input streams AND request '
+         'identities reachable from gc-visible objects are counted) and with N identical requests.'
+         % (len(KINDS), ', '.join(KINDS)))
+NONTRIVIAL_RULE = ('distinct (mode, kinds, debug, where, same, N, paths); non-trivial = history of length >= 2 '
+                   '(something was served before r_k) or a retention run')
 
 
 def exhaustive(tier):
@@ -65,6 +90,19 @@ def gen_cases(tier, seed):
         for kind in KINDS + ['mix']:
             for where in ('main', 'worker'):
                 yield dict(mode='retain', kind=kind, n=n, where=where)
+    # repeated requests: the whole history carries one identity
+    for a in KINDS:
+        for b in KINDS:
+            yield dict(mode='history', kinds=[a, b], debug=0, where='main', same=1)
+            yield dict(mode='history', kinds=[a, b], debug=0, where='worker', same=1)
+            yield dict(mode='history', kinds=[a, b, a], debug=0, where='main', same=1)
+            if tier != 'quick':
+                yield dict(mode='history', kinds=[a, b, a], debug=1, where='worker', same=1)
+                yield dict(mode='history', kinds=[b, a, a], debug=0, where='main', same=1)
+    # retention with N identical requests (the runs above use N distinct paths)
+    for n in ([200] if tier == 'quick' else [200, 2000]):
+        for kind in KINDS + ['mix']:
+            yield dict(mode='retain', kind=kind, n=n, where='main', paths='same')
 
 
 # ---------------------------------------------------------------------------------------------
@@ -145,6 +183,20 @@ def make_app(debug):
                'clen=' + repr(request.content_length),
                'url=' + request.url]
         return '\n'.join(out)
+    @app.route('/item/:rid/<id>')
+    def item(rid, id):
+        args = request.url_args          # this request's own wildcard arguments, normalised in place
+        args['id'] = int(args['id'])
+        return 'item:%s:%s:%r' % (rid, id, sorted(args.items()))
+
+    @app.route('/mut/:rid')
+    def mut(rid):
+        args = request.url_args
+        args['rid'] = ('seen', args['rid'])
+        out = 'mut:%s:%r' % (rid, sorted(args.items()))
+        args['extra'] = rid
+        return out
+
     app.route('/echo/:rid', method='GET', callback=echo)
     app.route('/echo/:rid', method='POST', callback=echo)
     return app
@@ -195,6 +247,11 @@ def make_request(kind, rid):
                             headers={'Cookie': 'cid=%s; c%s=1' % (rid, rid), 'X-Id': rid})
     if kind == 'echo_empty':
         return make_environ('/echo/' + rid)
+    if kind == 'argsint':
+        number = ''.join(c for c in rid if c.isdigit()) + str(len(rid))
+        return make_environ('/item/%s/%s' % (rid, number))
+    if kind == 'argsmut':
+        return make_environ('/mut/' + rid)
     raise ValueError(kind)
 
 
@@ -246,6 +303,8 @@ def run_case(case):
     debug = case['debug']
     # identities of different lengths: a length that sticks from an earlier response (Content-Length) must show
     rids = ['q7rid%dz' % i + 'x' * i for i in range(len(kinds))]
+    if case.get('same'):
+        rids = [rids[0]] * len(kinds)    # r_k repeats the earlier requests exactly (no earlier identity to look for)
     last_kind, last_rid = kinds[-1], rids[-1]
 
     # 1. the history, one application, one thread
@@ -265,7 +324,7 @@ def run_case(case):
             # nothing that identifies an EARLIER request may show up in this response (checked directly: a reference
             # application in the same process shares the process-wide objects and cannot reveal such a leak)
             blob = (out['body'] or b'') + repr(out['headers']).encode('utf8', 'replace') + str(out['status']).encode()
-            for earlier in rids[:rids.index(rid)]:
+            for earlier in ([] if case.get('same') else rids[:rids.index(rid)]):
                 if earlier.encode() in blob:
                     leaks.append(dict(kind=kind, rid=rid, shows=earlier, status=out['status']))
             cl = [v for k, v in out['headers'] if k.lower() == 'content-length']
@@ -312,15 +371,56 @@ class Marker:
     __slots__ = ('__weakref__',)
 
 
+_CONTAINERS = (dict, list, tuple, set, frozenset)
+
+
+def reachable_identities(pattern):
+    """Distinct request numbers whose identity token occurs in a str/bytes the collector can reach: referents of
+    every tracked object, descending through containers the collector does not track itself."""
+    import re
+    rx_s = re.compile(pattern)
+    rx_b = re.compile(pattern.encode())
+    found = set()
+    seen = set()
+    objs = gc.get_objects()
+    stack = []
+    for o in objs:
+        try:
+            refs = gc.get_referents(o)
+        except Exception:
+            continue
+        stack.extend(refs)
+        while stack:
+            r = stack.pop()
+            t = type(r)
+            if t is str:
+                if len(r) < 4096:
+                    for m in rx_s.finditer(r):
+                        found.add(int(m.group(1)))
+            elif t is bytes:
+                if len(r) < 4096:
+                    for m in rx_b.finditer(r):
+                        found.add(int(m.group(1)))
+            elif t in _CONTAINERS and not gc.is_tracked(r) and id(r) not in seen:
+                seen.add(id(r))
+                stack.extend(gc.get_referents(r))
+    del objs, stack
+    return found
+
+
 def run_retain(case):
+    import zlib
     n = case['n']
     kinds = KINDS if case['kind'] == 'mix' else [case['kind']]
+    same = case.get('paths') == 'same'
+    # identity token of this case's requests: 'r<case digits>q<request number>z'
+    tag = 'r%dq' % (zlib.crc32(repr(sorted(case.items())).encode()) % 100000)
     app = make_app(0)
     markers, inputs = [], []
 
     def batch(start):
         for i in range(start, start + n):
-            env = make_request(kinds[i % len(kinds)], 'q%d' % i)
+            env = make_request(kinds[i % len(kinds)], tag + ('0z' if same else '%dz' % i))
             m = Marker()
             env['x.marker'] = m
             markers.append(weakref.ref(m))
@@ -331,27 +431,36 @@ def run_retain(case):
 
     def alive():
         gc.collect()
-        return (sum(1 for w in markers if w() is not None), sum(1 for w in inputs if w() is not None))
+        ids = () if same else reachable_identities(tag + r'(\d+)z')
+        return (sum(1 for w in markers if w() is not None), sum(1 for w in inputs if w() is not None), len(ids))
 
     def both():
         batch(0)
         a1 = alive()
         batch(n)
         a2 = alive()
-        return a1, a2
+        a3 = None
+        if a2[2] > a1[2] + KEEP:     # still growing?  a bounded cache between N and 2N entries stops here
+            batch(2 * n)
+            batch(3 * n)
+            a3 = alive()
+        return a1, a2, a3
     if case['where'] == 'main':
-        a1, a2 = both()
+        a1, a2, a3 = both()
     else:
         done, r, exc = _in_thread(both)
         if not done:
             return fail('deadlock/timeout', where='retention thread')
         if exc is not None:
             raise exc
-        a1, a2 = r
-    for served, (nm, ni) in ((n, a1), (2 * n, a2)):
+        a1, a2, a3 = r
+    for served, (nm, ni, nid) in ((n, a1), (2 * n, a2)):
         if nm > KEEP or ni > KEEP:
             return fail('R.retained_grows_with_N', served=served, markers_alive=nm, inputs_alive=ni, bound=KEEP,
                         after_n=list(a1), after_2n=list(a2))
+    if a3 is not None and a3[2] > a2[2] + KEEP:
+        return fail('R2.request_data_retained_grows_with_N', served=4 * n, identities_reachable=a3[2],
+                    after_n=list(a1), after_2n=list(a2), after_4n=list(a3), slack=KEEP)
     return None
 
 
